@@ -3138,3 +3138,26 @@ T("C01", "twin-gate-empty-test-truthiness", LD,
   "    if len(event_sets) == 0:\n        return None\n    process_tree",
   "    if not event_sets:\n        return None\n    process_tree",
   "emptiness of the observation tested by truthiness")
+
+# ---- root classification on the three-point domain (seeds C10-y, C12-y) -----
+for _P, _R in (("C10", "R10.7"), ("C11", "R11.9"), ("C12", "R12.9")):
+    M(_P, "empty-parent-stored-as-is", SQL,
+      "            parent_event_id=otel_event.parent_event_id or None,",
+      "            parent_event_id=otel_event.parent_event_id,",
+      _R, "a root exported with parent '' is stored as '' - no reader takes it for a root (seed C12-y)")
+    M(_P, "link-guard-is-not-none", SQL,
+      "        if otel_event.parent_event_id:\n",
+      "        if otel_event.parent_event_id is not None:\n",
+      _R, "a root exported with parent '' gets a link row to '' (seed C10-y)")
+    M(_P, "rebuild-guard-truthiness-after-unnormalised-store", SQL,
+      "            parent_event_id=otel_event.parent_event_id or None,",
+      "            parent_event_id=otel_event.parent_event_id if otel_event.parent_event_id is not None else None,",
+      _R, "the conditional expression keeps '' although it looks like a normalisation")
+    T(_P, "twin-parent-normalised-by-conditional", SQL,
+      "            parent_event_id=otel_event.parent_event_id or None,",
+      "            parent_event_id=(\n                otel_event.parent_event_id\n                if otel_event.parent_event_id\n                else None\n            ),",
+      "`x if x else None` is `x or None`")
+    T(_P, "twin-link-guard-explicit", SQL,
+      "        if otel_event.parent_event_id:\n",
+      "        if otel_event.parent_event_id is not None and otel_event.parent_event_id != \"\":\n",
+      "explicit spelling of the truthiness test")
